@@ -1,8 +1,8 @@
 SPECIFICATION BSpec
 CONSTANTS
-  System <- SysC20V3
-  Alphabet <- AlphaC20V3
-  MaxLen = 7
+  System <- SysC20V3Q
+  Alphabet <- AlphaC20V3Q
+  MaxLen = 8
   Lint = TRUE
   SortVariant = "code"
   StaleOK = TRUE
